@@ -195,13 +195,15 @@ func (x *c8Exec) flagList(v, n int, msg bool) []string {
 	return out
 }
 
-func (x *c8Exec) noteLen(n int) {
+func (x *c8Exec) noteLen(method string, n int) {
 	switch {
 	case n > 1000:
 		x.st.Probes["list_gt_1000"]++
+		x.st.Probes["gt1000:"+method]++
 		x.bigList = true
 	case n > 500:
 		x.st.Probes["list_gt_500"]++
+		x.st.Probes["gt500:"+method]++
 		x.bigList = true
 	}
 	switch {
@@ -591,7 +593,7 @@ func init() {
 				addR(fmt.Sprintf("unknown-%d", k))
 			}
 		}
-		x.noteLen(len(rids))
+		x.noteLen(a.K, len(rids))
 		got, err := x.rd.MailboxTranslateRemoteIDs(x.ctx, rids)
 		if x.expect(a.K, fmt.Sprintf("%d ids", len(rids)), err, "nil", false) {
 			var g []string
@@ -607,7 +609,7 @@ func init() {
 		if b == nil && len(ids) == 0 {
 			return
 		}
-		x.noteLen(len(ids))
+		x.noteLen(a.K, len(ids))
 		pairs := make([]db.MessageIDPair, len(ids))
 		var w []string
 		for i, m := range ids {
@@ -721,7 +723,7 @@ func init() {
 	})
 	c8Reg("GetMessagesFlags", false, func(x *c8Exec, a core.Action) {
 		ids := x.msgList(a.Arg(0), a.Arg(1), x.msgPred([]int{c8Any, c8Existing}[a.Arg(2)%2]))
-		x.noteLen(len(ids))
+		x.noteLen(a.K, len(ids))
 		got, err := x.rd.GetMessagesFlags(x.ctx, ids)
 		if x.expect(a.K, c8IDs(ids), err, "nil", false) {
 			var w, g []string
@@ -937,7 +939,7 @@ func init() {
 		default:
 			ids = x.msgList(n, a.Arg(2), func(m c8ID) bool { _, ok := x.m.Msgs[m]; _, in := b.In[m]; return ok && !in })
 		}
-		x.noteLen(len(ids))
+		x.noteLen(a.K, len(ids))
 		pairs := make([]db.MessageIDPair, len(ids))
 		for i, m := range ids {
 			pairs[i] = db.MessageIDPair{InternalID: m, RemoteID: imap.MessageID(x.m.Msgs[m].RemoteID)}
@@ -978,7 +980,7 @@ func init() {
 		if b == nil && len(ids) == 0 {
 			return
 		}
-		x.noteLen(len(ids))
+		x.noteLen(a.K, len(ids))
 		args := fmt.Sprintf("%d, %s", id, c8IDs(ids))
 		err := x.tx.RemoveMessagesFromMailbox(x.ctx, mbid(id), ids)
 		if x.expect(a.K, args, err, c8NilOrAnyErr(b != nil), true) && b != nil {
@@ -1029,7 +1031,7 @@ func init() {
 		if b == nil && len(ids) == 0 {
 			return
 		}
-		x.noteLen(len(ids))
+		x.noteLen(a.K, len(ids))
 		deleted := a.Arg(4)%3 != 0
 		args := fmt.Sprintf("%d, %s, %v", id, c8IDs(ids), deleted)
 		err := x.tx.SetMailboxMessagesDeletedFlag(x.ctx, mbid(id), ids, deleted)
@@ -1144,7 +1146,7 @@ func init() {
 				valid = false
 			}
 		}
-		x.noteLen(n)
+		x.noteLen(a.K, n)
 		args := fmt.Sprintf("%d requests valid=%v", n, valid)
 		err := x.tx.CreateMessages(x.ctx, reqs...)
 		if x.expect(a.K, args, err, c8NilOrAnyErr(valid), true) {
@@ -1248,7 +1250,7 @@ func init() {
 			pred = func(m c8ID) bool { return nm(m) || miss(m) }
 		}
 		ids := x.msgList(a.Arg(0), a.Arg(1), pred)
-		x.noteLen(len(ids))
+		x.noteLen(a.K, len(ids))
 		valid := true
 		for _, m := range ids {
 			if x.m.isMember(m) {
@@ -1306,7 +1308,7 @@ func init() {
 				break
 			}
 		}
-		x.noteLen(len(ids))
+		x.noteLen(a.K, len(ids))
 		args := fmt.Sprintf("%s, %q", c8IDs(ids), flag)
 		err := x.tx.AddFlagToMessages(x.ctx, ids, flag)
 		if x.expect(a.K, args, err, c8NilOrAnyErr(valid), true) {
@@ -1331,7 +1333,7 @@ func init() {
 				}
 			}
 		}
-		x.noteLen(len(ids))
+		x.noteLen(a.K, len(ids))
 		args := fmt.Sprintf("%s, %q", c8IDs(ids), flag)
 		err := x.tx.RemoveFlagFromMessages(x.ctx, ids, flag)
 		if x.expect(a.K, args, err, "nil", true) {
@@ -1359,7 +1361,7 @@ func init() {
 				break
 			}
 		}
-		x.noteLen(len(ids))
+		x.noteLen(a.K, len(ids))
 		args := fmt.Sprintf("%s, %q", c8IDs(ids), flags)
 		err := x.tx.SetFlagsOnMessages(x.ctx, ids, imap.NewFlagSet(flags...))
 		if x.expect(a.K, args, err, c8NilOrAnyErr(valid), true) {
